@@ -167,6 +167,28 @@ theorem scr_is_screen (f : Bytes) (r : Machine) (hlen : f.length = scrSize) :
         show (((r.write 0x8000 0xC3).write 0x8001 0x00).write 0x8002 0x80).kind = _
         rw [write_kind, write_kind, write_kind]; exact hk)).1
 
+/-- **C14, the display after a load.** Whatever file was loaded by whichever loader (SNA, SZX,
+SCR; any repair setting; any receiver), after a successful load the screen device's copy of EVERY
+displayable bank — bank 5 *and* bank 7 on the 128K, whichever is being shown — equals RAM: the
+picture is right also after the program flips the displayed screen without redrawing. -/
+theorem display_follows_ram (fx : Fixes) (inflate : Bytes → Option Bytes) (f : Bytes) (r m : Machine)
+    (h : snaLoad fx f r = .ok m ∨ szxLoad fx inflate f r = .ok m ∨ scrLoad f r = .ok m) :
+    ∀ b, m.displayable b = true → m.scr b = m.ram b := by
+  intro b hb
+  rcases h with h | h | h
+  · obtain ⟨m0, rfl⟩ := snaLoad_is_refresh fx f r m h
+    exact refresh_display m0 b hb
+  · obtain ⟨m0, rfl⟩ := szxLoad_is_refresh fx inflate f r m h
+    exact refresh_display m0 b hb
+  · unfold scrLoad at h
+    split at h
+    · cases h
+    · split at h
+      · cases h
+      · cases h
+        unfold scrApply at hb ⊢
+        exact refresh_display _ b hb
+
 /-! ### SZX: load = describe -/
 
 /-- **C14, SZX (repaired code).** For every byte string `f` that is a well-formed zx-state file for
@@ -237,12 +259,7 @@ theorem szx_load_is_describe (inflate : Bytes → Option Bytes) (f : Bytes) (r :
                 | .error e => Except.error e
                 | .ok m => Except.ok m.refresh) = _
               rw [w1]
-            · have : Spec.abs m.refresh = Spec.abs m := by
-                obtain ⟨f1, f2, f3, f4, f5, f6, _, _, _, f10⟩ := refresh_same m
-                have hay : m.refresh.ayRegs = m.ayRegs ∧ m.refresh.aySel = m.aySel ∧ m.refresh.ayChip = m.ayChip ∧
-                    m.refresh.ayEnabled = m.ayEnabled ∧ m.refresh.mouse = m.mouse := by
-                  unfold Machine.refresh; split <;> exact ⟨rfl, rfl, rfl, rfl, rfl⟩
-                simp only [Spec.abs, f1, f2, f3, f4, f5, f6, f10, hay.1, hay.2.1, hay.2.2.1, hay.2.2.2.1, hay.2.2.2.2]
+            · have : Spec.abs m.refresh = Spec.abs m := abs_refresh m
               rw [this, w4, habs0, ← hd]
             · intro b hb
               have hkm : m.refresh.kind = m.kind := (refresh_same m).2.2.2.2.2.2.2.2.2
@@ -267,35 +284,39 @@ theorem szx_load_is_describe (inflate : Bytes → Option Bytes) (f : Bytes) (r :
 
 /-- **C14, AY (repaired code).** After an AY chunk is applied to a machine with the AY present, the
 sound generator is in the state a program reaches by writing registers 0..13 through the ports —
-whatever the chip held before — and the register file and the selected register are the file's. -/
+whatever the chip held and whatever its envelope generator was doing before: the same 14 registers
+AND the envelope back at the start of its shape (a write of register 13 restarts it even when the
+value is unchanged) — and the register file and the selected register are the file's. -/
 theorem ay_audible_state (mid : Nat) (d : Bytes) (m : Machine) (hc : m.ayChip.length = 14)
     (hl : d.length = 18) (hen : (ayStep1 mid d m).ayEnabled = true) :
     ∃ m', szxAY Fixes.all mid d m = some m' ∧
       m'.ayChip = (m.ayViaPorts (d.drop 2)).ayChip ∧ m'.ayChip = (d.drop 2).take 14 ∧
-      m'.ayRegs = (d.drop 2).take 16 ∧ m'.aySel = (d.getD 1 0 &&& 0x0F).toNat := by
+      m'.ayRegs = (d.drop 2).take 16 ∧ m'.aySel = (d.getD 1 0 &&& 0x0F).toNat ∧
+      m'.ayEnvAtStart = (m.ayViaPorts (d.drop 2)).ayEnvAtStart ∧ m'.ayEnvAtStart = true := by
   have hregs : 14 ≤ (d.drop 2).length := by simp [hl]
   have hvia := ayViaPorts_chip m (d.drop 2) hc hregs
   have hprog : chipProgram (ayStep1 mid d m).ayChip (d.drop 2) = (d.drop 2).take 14 :=
     chipProgram_eq _ _ (by rw [ayStep1_chip]; exact hc) hregs
   rw [szxAY_eq _ _ _ _ hl, if_pos hen]
-  obtain ⟨e1, e2, e3⟩ := aySetRegs_all (ayStep1 mid d m) (d.getD 1 0) (d.drop 2)
-  exact ⟨_, rfl, by rw [hvia, e1]; exact hprog, by rw [e1]; exact hprog, e2, e3⟩
+  obtain ⟨e1, e2, e3, e4⟩ := aySetRegs_all (ayStep1 mid d m) (d.getD 1 0) (d.drop 2)
+  exact ⟨_, rfl, by rw [hvia, e1]; exact hprog, by rw [e1]; exact hprog, e2, e3,
+    by rw [e4, ayViaPorts_env], e4⟩
 
 /-- **Defect #12 (AY) is real.** The code as it is loads the register file but leaves the sound
 generator exactly as it was: read-back is right, the audible state is the previous machine's. -/
 theorem code_ay_not_audible (mid : Nat) (d : Bytes) (m m' : Machine) (hl : d.length = 18)
     (h : szxAY Fixes.none mid d m = some m') :
-    m'.ayChip = m.ayChip ∧
+    m'.ayChip = m.ayChip ∧ m'.ayEnvAtStart = m.ayEnvAtStart ∧
     ((ayStep1 mid d m).ayEnabled = true → m'.ayRegs = (d.drop 2).take 16) := by
   rw [szxAY_eq _ _ _ _ hl] at h
   simp only [Option.some.injEq] at h
   subst h
   by_cases hen : (ayStep1 mid d m).ayEnabled = true
   · rw [if_pos hen]
-    obtain ⟨e1, e2⟩ := aySetRegs_none (ayStep1 mid d m) (d.getD 1 0) (d.drop 2)
-    exact ⟨by rw [e1]; exact ayStep1_chip _ _ _, fun _ => e2⟩
+    obtain ⟨e1, e2, e3⟩ := aySetRegs_none (ayStep1 mid d m) (d.getD 1 0) (d.drop 2)
+    exact ⟨by rw [e1]; exact ayStep1_chip _ _ _, by rw [e3]; exact ayStep1_env _ _ _, fun _ => e2⟩
   · rw [if_neg hen]
-    exact ⟨ayStep1_chip _ _ _, fun h => absurd h hen⟩
+    exact ⟨ayStep1_chip _ _ _, ayStep1_env _ _ _, fun h => absurd h hen⟩
 
 /-! ### two encodings of one state -/
 
